@@ -279,7 +279,8 @@ func (obj SparseConstFloat64Vector) ITERATOR() *SparseConstFloat64VectorIterator
   return &r
 }
 func (obj SparseConstFloat64Vector) ITERATOR_FROM(i int) *SparseConstFloat64VectorIterator {
-  k := 0
+  // if there is no entry at or after i the iterator is exhausted
+  k := len(obj.indices)
   for j, idx := range obj.indices {
     if idx >= i {
       k = j
